@@ -374,6 +374,19 @@ SPECS["C09"]["imports"] = SPECS["C01"]["imports"]
 SPECS["C09"]["items"] = [dict(name="ser_text_roundtrip", comment="TEXT level, for every well-formed program VALUE with lexically safe names: the rendered serialisation is read back as the serialised script")] + SPECS["C09"]["items"]
 
 
+SPECS["C01"]["imports"] += "\nFrom BB Require Import RenderLoadP."
+SPECS["C01"]["items"] = [
+    dict(name="ser_text_loads", comment="TEXT level, end to end: the characters the model serialiser writes, loaded by the model's own loads (final-newline rule, lexer, parser, include resolution, evaluator), give the program back (its normal form `reload p`, equivalent to p by reload_equiv) whenever loads answers"),
+] + SPECS["C01"]["items"]
+SPECS["C09"]["imports"] = SPECS["C01"]["imports"]
+SPECS["C09"]["items"] = [dict(name="ser_text_loads", comment="TEXT level, end to end, for every well-formed program VALUE with lexically safe names")] + SPECS["C09"]["items"]
+SPECS["C10"]["imports"] += "\nFrom BB Require Import Loader LexTotalP."
+SPECS["C10"]["items"] += [
+    dict(name="lex_total", comment="the model's lexer answers on EVERY character string with the fuels the front end uses (no text is left undecided for lack of fuel)"),
+    dict(name="front_not_unspec", comment="hence the front end never answers Unspec: every text is either read as a script or refused as a syntax error"),
+]
+
+
 def main():
     which = sys.argv[1:] or sorted(SPECS)
     for p in which:
